@@ -31,7 +31,7 @@ namespace can {
 
 struct frame_t {
     std::array<char,4> bus;
-    std::uint16_t sid;
+    std::uint32_t sid;
     std::uint8_t dlc;
     std::array<std::uint8_t, 8> data;
 };
